@@ -152,7 +152,10 @@ def rule_r23(ctx):
         if not cls_binds or not body or cls_binds[0].pos > body[0].pos or cls_binds[0].deferred != body[0].deferred:
             bad = bad or ("class-cell", "the loader does not bind __class__ to the class before the lowered body (zero-argument super() in methods fails)")
         else:
-            t = cls_binds[0].node
+            ne = cls_binds[0].extra.get("namedexpr")
+            v = ne.fields.get("value") if ne is not None else None
+            if not (isinstance(v, TNode) and v.kind == "$Load" and isinstance(v.fields.get("name"), UPrim) and v.fields["name"].field == "name" and v.fields["name"].parent is node and getattr(v.fields.get("nsp"), "tag", None) == "self.nsp"):
+                bad = bad or ("self-reference", "the loader binds __class__ to something other than get_load_name(ClassDef.name) of the defining namespace (a class stored in a nonlocal/class dict is not found)")
         # R3: loader returns the dict; install loop
         dict_binds = [e for e in evs if e.kind == "bind-fresh" and "CLASS_DICT" in (e.path or "").upper()]
         dict_loads = [e for e in evs if e.kind == "load-fresh" and "CLASS_DICT" in (e.path or "").upper()]
